@@ -107,6 +107,14 @@ pub mod m {
     pub fn into_c(a: u16) -> (r: u16) ensures r == into_c_spec(a) { unimplemented!() }
 
     pub type Off = i64;
+    pub uninterp spec fn fmt_a_spec(v: u8, st: int) -> core::fmt::Result;
+    pub open spec fn mid_fmt_a() -> int { 1 }
+    #[verifier::external_body]
+    pub fn fmt_a(a: &u8, f: &mut core::fmt::Formatter<'_>) -> (r: core::fmt::Result) ensures r == fmt_a_spec(*a, f_state(old(f))) { unimplemented!() }
+    pub uninterp spec fn fmt_b_spec(v: u8, st: int) -> core::fmt::Result;
+    pub open spec fn mid_fmt_b() -> int { 2 }
+    #[verifier::external_body]
+    pub fn fmt_b(a: &u8, f: &mut core::fmt::Formatter<'_>) -> (r: core::fmt::Result) ensures r == fmt_b_spec(*a, f_state(old(f))) { unimplemented!() }
     pub struct K(pub u64);
     impl core::hash::Hash for K {
         #[verifier::external_body]
@@ -246,6 +254,7 @@ use vstd::std_specs::cmp::{PartialEqSpecImpl, OrdSpecImpl, PartialOrdSpecImpl, O
 use vstd::std_specs::convert::{IntoSpecImpl, IntoSpec};
 use core::cmp::Ordering;
 verus! {
+pub uninterp spec fn f_state(f: &core::fmt::Formatter<'_>) -> int;
 pub open spec fn lex2(x: Ordering, y: Ordering) -> Ordering { if x == Ordering::Equal { y } else { x } }
 pub open spec fn plex2(x: Option<Ordering>, y: Option<Ordering>) -> Option<Ordering> { if x == Some(Ordering::Equal) { y } else { x } }
 pub open spec fn ord_rev(x: Ordering) -> Ordering { match x { Ordering::Less => Ordering::Greater, Ordering::Equal => Ordering::Equal, Ordering::Greater => Ordering::Less } }
@@ -286,7 +295,6 @@ pub struct ExDebugTuple<'a, 'b: 'a>(core::fmt::DebugTuple<'a, 'b>);
 pub struct ExDebugStruct<'a, 'b: 'a>(core::fmt::DebugStruct<'a, 'b>);
 
 pub struct Tr(pub int);
-pub uninterp spec fn f_state(f: &core::fmt::Formatter<'_>) -> int;
 pub uninterp spec fn wr(st: int, s: Seq<char>) -> core::fmt::Result;
 pub uninterp spec fn dyn_id(v: &dyn core::fmt::Debug) -> int;
 pub uninterp spec fn tt_start(st: int, name: Seq<char>) -> Tr;
@@ -297,6 +305,25 @@ pub uninterp spec fn ts_start(st: int, name: Seq<char>) -> Tr;
 pub uninterp spec fn ts_field(t: Tr, key: Seq<char>, v: int) -> Tr;
 pub uninterp spec fn ds_trace(d: &core::fmt::DebugStruct<'_, '_>) -> Tr;
 pub uninterp spec fn sfin(t: Tr) -> core::fmt::Result;
+#[verifier::external_type_specification]
+#[verifier::external_body]
+pub struct ExDebugMap<'a, 'b: 'a>(core::fmt::DebugMap<'a, 'b>);
+pub uninterp spec fn tm_start(st: int) -> Tr;
+pub uninterp spec fn tm_entry(t: Tr, k: int, v: int) -> Tr;
+pub uninterp spec fn dm_trace(d: &core::fmt::DebugMap<'_, '_>) -> Tr;
+pub uninterp spec fn mfin(t: Tr) -> core::fmt::Result;
+/// identity of a value whose Debug writes exactly the raw string s (educe's key helper)
+pub uninterp spec fn raw_key(s: Seq<char>) -> int;
+/// identity of a value whose Debug is custom method m applied to the field value v
+pub uninterp spec fn method_item(m: int, v: int) -> int;
+pub assume_specification<'a, 'b> [core::fmt::Formatter::<'a>::debug_map] (f: &'b mut core::fmt::Formatter<'a>) -> (r: core::fmt::DebugMap<'b, 'a>)
+    ensures dm_trace(&r) == tm_start(f_state(old(f)));
+pub assume_specification<'a, 'b, 'c> [core::fmt::DebugMap::<'a, 'b>::entry] (d: &'c mut core::fmt::DebugMap<'a, 'b>, k: &dyn core::fmt::Debug, v: &dyn core::fmt::Debug) -> (r: &'c mut core::fmt::DebugMap<'a, 'b>)
+    where 'b: 'a,
+    ensures dm_trace(final(d)) == tm_entry(dm_trace(old(d)), dyn_id(k), dyn_id(v));
+pub assume_specification<'a, 'b> [core::fmt::DebugMap::<'a, 'b>::finish] (d: &mut core::fmt::DebugMap<'a, 'b>) -> (r: core::fmt::Result)
+    where 'b: 'a,
+    ensures r == mfin(dm_trace(old(d)));
 
 pub assume_specification<'a> [core::fmt::Formatter::<'a>::write_str] (f: &mut core::fmt::Formatter<'a>, s: &str) -> (r: core::fmt::Result)
     ensures r == wr(f_state(old(f)), s@);
